@@ -43,6 +43,9 @@ def rule_derive(ctx):
 def rule_injective(ctx):
     nq = 2 if ctx.tier == "quick" else 3
     m = agree.run_agree(ctx, "AGREE-INJ", "builder", nq, reference_parser=True)
+    # the type token is written raw: injective only if the type predicate admits no separator / nothing needing an escape
+    from .common import raw_type_alphabet_obligation
+    raw_type_alphabet_obligation(ctx, ctx.facts(), "AGREE-INJ")
     facts = ctx.facts()
     # converse: Display reads only package_type() and the parts (through accessors / the qualifiers field)
     body = m.fm["body"]
